@@ -5,14 +5,17 @@ import (
 	"errors"
 	"fmt"
 	"os"
+	"reflect"
 	"sort"
 	"strings"
 	"sync"
+	"sync/atomic"
 	"testing"
 	"time"
 
 	"github.com/pion/rtp"
 	"github.com/pion/rtp/codecs"
+	"github.com/pion/webrtc/v4/internal/verifhook"
 	kit "github.com/pion/webrtc/v4/internal/verifkit"
 	"github.com/pion/webrtc/v4/pkg/media"
 	"github.com/pion/webrtc/v4/pkg/media/samplebuilder"
@@ -695,10 +698,32 @@ type c31PushState struct {
 	pkt         *c31Pkt
 	pushed      bool
 	released    int
-	outstanding int  // packets held by the builder just before this push (pushed, not released, not overwritten)
-	lateHorizon bool // at push time, U <= highest U the builder was already done with (emitted by Pop, or released)
-	dupAfter    bool // at push time an earlier copy of this U had been emitted or released
-	isDup       bool // at push time an earlier copy of this U had been pushed
+	outstanding int   // packets held by the builder just before this push (pushed, not released, not overwritten)
+	lateHorizon bool  // at push time, U <= highest U the builder was already done with (emitted by Pop, or released)
+	dupAfter    bool  // at push time an earlier copy of this U had been emitted or released
+	isDup       bool  // at push time an earlier copy of this U had been pushed
+	reinits     int64 // number of active-window re-initialisations of this builder seen before this push
+}
+
+// The known late-packet / late-duplicate / suffix-re-emitted findings share one mechanism: the builder keeps its consumed
+// horizon only in the active window and re-initialises that window from the filled window (verifhook "sb.active.reinit")
+// while consumed or late packets are still in the buffer. c31Reinits counts those events per builder, so that a packet
+// coming out again WITHOUT any re-initialisation since it was pushed / first emitted gets a signature of its own.
+var (
+	c31Reinits   sync.Map    // *samplebuilder.SampleBuilder -> *atomic.Int64
+	c31HookAlive atomic.Bool // some re-initialisation event was observed in this process (the hook is compiled in)
+)
+
+func c31InstallHook() {
+	verifhook.Install(&verifhook.Hooks{Observe: func(name string, key any, _, _ int64) {
+		if name != "sb.active.reinit" {
+			return
+		}
+		c31HookAlive.Store(true)
+		if c, ok := c31Reinits.Load(key); ok {
+			c.(*atomic.Int64).Add(1) //nolint:forcetypeassert
+		}
+	}})
 }
 
 func c31Exec(c *c31Case) *c31Result { //nolint:gocognit,cyclop,maintidx
@@ -731,6 +756,27 @@ func c31Exec(c *c31Case) *c31Result { //nolint:gocognit,cyclop,maintidx
 		fmt.Printf("case class=%s max_late=%d delay_ms=%d headers=%v note=%s\n", c.Class, c.MaxLate, c.DelayMs, c.Headers, c.Note)
 	}
 	opNo := 0
+	reinitCtr := &atomic.Int64{}
+	// horizon: each time the "done" horizon (highest position emitted or released) rises, remember how many window
+	// re-initialisations had been seen by then
+	type c31Horizon struct {
+		u       int
+		reinits int64
+	}
+	var horizon []c31Horizon
+	raiseHorizon := func(u int) {
+		maxDoneU, haveDone = u, true
+		horizon = append(horizon, c31Horizon{u, reinitCtr.Load()})
+	}
+	horizonReinits := func(u int) int64 { // re-initialisations seen when the builder was first done with a position >= u
+		for _, h := range horizon {
+			if h.u >= u {
+				return h.reinits
+			}
+		}
+
+		return reinitCtr.Load()
+	}
 
 	opts := []samplebuilder.Option{samplebuilder.WithPacketReleaseHandler(func(p *rtp.Packet) {
 		res.releases++
@@ -749,7 +795,7 @@ func c31Exec(c *c31Case) *c31Result { //nolint:gocognit,cyclop,maintidx
 		}
 		releasedU[s.pkt.U] = true
 		if !haveDone || s.pkt.U > maxDoneU {
-			maxDoneU, haveDone = s.pkt.U, true
+			raiseHorizon(s.pkt.U)
 		}
 		if trace {
 			fmt.Printf("      release seq=%d copy=%d\n", s.pkt.Seq, s.pkt.Copy)
@@ -775,6 +821,19 @@ func c31Exec(c *c31Case) *c31Result { //nolint:gocognit,cyclop,maintidx
 		dep = &codecs.OpusPacket{}
 	}
 	sb := samplebuilder.New(c.MaxLate, dep, c31SampleRate, opts...)
+	c31Reinits.Store(sb, reinitCtr)
+	defer c31Reinits.Delete(sb)
+	// noReinit: the offending packet came out although the window was not re-initialised since base (push / first emission)
+	// (not in the purge-window-below-one-frame input class: there the known wrap-around defect alone makes packets come out
+	// much later or twice, with no re-initialisation involved)
+	tinyWindow := c.MaxLate <= 1 || (c.DelayMs > 0 && int64(c.DelayMs)*c31SampleRate/1000 < int64(c.MaxStep))
+	noReinit := func(base int64) string {
+		if !tinyWindow && c31HookAlive.Load() && reinitCtr.Load() == base {
+			return ":no-window-reinit"
+		}
+
+		return ""
+	}
 
 	// Purge window below one frame (maxLate 0/1, or a max time delay shorter than a frame interval, so that the purge loop
 	// runs on nearly every push): one cause (the loop steps filled.head/active.head past the tail, packets are orphaned in
@@ -924,6 +983,13 @@ func c31Exec(c *c31Case) *c31Result { //nolint:gocognit,cyclop,maintidx
 						sig = generic("packet-in-two-samples")
 					}
 				}
+				// The known mechanism re-initialises the window after the first copy was built into a sample and before this one
+				// was. Builds are not observable (samples are prepared long before Pop hands them out), so the widest interval is
+				// used: no re-initialisation between the push of the first copy and this Pop.
+				base := states[pushedU[u][0]].reinits
+				if strings.HasPrefix(sig, "late-duplicate-on-") || strings.HasPrefix(sig, "packet-in-two-samples:suffix-") {
+					sig += noReinit(base)
+				}
 				viol(sig, "sample #%d (op %d) = packets %v reuses seq %d (copy %d) which already went into sample #%d (as copy %d); this copy was pushed with %d packets buffered, earlier copy emitted-or-released before this push: %v",
 					n, opNo, lst, states[pi].pkt.Seq, states[pi].pkt.Copy, emittedIn[u], states[prev].pkt.Copy, states[pi].outstanding, states[pi].dupAfter)
 				reported = true
@@ -932,7 +998,9 @@ func c31Exec(c *c31Case) *c31Result { //nolint:gocognit,cyclop,maintidx
 			}
 		}
 		if haveEmitted && first.U <= prevLastU && !reported {
-			viol(classify(idxs[0], false), "sample #%d (op %d) = packets %v comes out after a sample ending at seq %d (not in sequence-number order); its first packet was pushed with %d packets buffered, behind the emitted horizon at push time: %v, duplicate: %v",
+			oooSig := classify(idxs[0], false)
+			_ = horizonReinits
+			viol(oooSig, "sample #%d (op %d) = packets %v comes out after a sample ending at seq %d (not in sequence-number order); its first packet was pushed with %d packets buffered, behind the emitted horizon at push time: %v, duplicate: %v",
 				n, opNo, lst, uint16(int(first.Seq)+(prevLastU-first.U)), states[idxs[0]].outstanding, states[idxs[0]].lateHorizon, states[idxs[0]].isDup)
 		}
 		for _, pi := range idxs {
@@ -943,7 +1011,7 @@ func c31Exec(c *c31Case) *c31Result { //nolint:gocognit,cyclop,maintidx
 			}
 		}
 		if !haveDone || last.U > maxDoneU {
-			maxDoneU, haveDone = last.U, true
+			raiseHorizon(last.U)
 		}
 		prevLastU = last.U
 		haveEmitted = true
@@ -964,7 +1032,7 @@ func c31Exec(c *c31Case) *c31Result { //nolint:gocognit,cyclop,maintidx
 	for i, o := range c.Ops {
 		opNo = i
 		if trace {
-			fmt.Printf("op %3d %s\n", i, c.opStrings()[i])
+			fmt.Printf("op %3d %s   [reinits so far %d, active has data: %d]\n", i, c.opStrings()[i], reinitCtr.Load(), c31PeekActive(sb))
 		}
 		switch o.K {
 		case 'P':
@@ -993,6 +1061,7 @@ func c31Exec(c *c31Case) *c31Result { //nolint:gocognit,cyclop,maintidx
 			}
 			slot[p.Seq] = o.P
 			res.pushes++
+			s.reinits = reinitCtr.Load()
 			sb.Push(rp)
 		case 'o':
 			pop()
@@ -1076,6 +1145,8 @@ func TestVerifC31(t *testing.T) {
 		"13 scripted witnesses + seeded random streams in 4 classes (conserve: loss-free bounded reorder with maxLate derived from the delivery, sub-modes core/start/tight; lossy; dups; hostile flags/padding/bursts); "+
 		"a case is non-trivial when at least 3 samples came out and the delivery is not the plain in-order loss-free stream; distinct by the full op list + options")
 	defer run.Finish()
+	c31InstallHook()
+	defer verifhook.Install(nil)
 	run.Assume("streams span < 2^15 sequence numbers, so serial-number order equals the order of the unwrapped stream positions")
 	run.Assume("this SampleBuilder version has no PopWithTimestamp; Sample.PacketTimestamp is compared with the run's timestamp and only counted (not part of the statement)")
 
@@ -1158,4 +1229,21 @@ func TestVerifC31(t *testing.T) {
 			fmt.Printf("C31-STATS: %4d %s\n", classSeen[k], k)
 		}
 	}
+}
+
+// c31PeekActive is a trace aid only (VERIF_C31_TRACE): 1 active window holds data, 0 empty, -1 layout unknown.
+func c31PeekActive(sb *samplebuilder.SampleBuilder) int {
+	a := reflect.ValueOf(sb).Elem().FieldByName("active")
+	if !a.IsValid() || a.Kind() != reflect.Struct {
+		return -1
+	}
+	h, t := a.FieldByName("head"), a.FieldByName("tail")
+	if !h.IsValid() || !t.IsValid() || !h.CanUint() || !t.CanUint() {
+		return -1
+	}
+	if h.Uint() != t.Uint() {
+		return int(h.Uint())
+	}
+
+	return 0
 }
